@@ -95,6 +95,23 @@ def get_title_injection_candidate(node: n.Node) -> Optional[n.Parent[n.Node]]:
             return None
 
 
+def without_ref_roles(
+    nodes: Sequence[n.Node], own: Tuple[str, str, str]
+) -> MutableSequence[n.Node]:
+    """Replace every cross-reference role in a list of (freshly copied) nodes by its own children;
+    a reference to the target "own" (domain, name, target) itself is dropped altogether."""
+    result: MutableSequence[n.Node] = []
+    for node in nodes:
+        if isinstance(node, n.RefRole):
+            if (node.domain, node.name, node.target) != own:
+                result.extend(without_ref_roles(node.children, own))
+            continue
+        if isinstance(node, n.Parent):
+            node.children = without_ref_roles(node.children, own)
+        result.append(node)
+    return result
+
+
 def get_deepest(node: n.Node) -> Optional[n.Node]:
     """Dive into a tree of nodes, and return the deepest node if and only if the tree is linear."""
     while True:
@@ -1910,8 +1927,12 @@ class RefsHandler(Handler):
         injection_candidate = get_title_injection_candidate(node)
         # If there is no explicit title given, use the target's title
         if injection_candidate is not None:
-            cloned_title_nodes: MutableSequence[n.Node] = list(
-                deepcopy(node) for node in result.title
+            # A link's text cannot hold links. Besides, a heading that refers to its own
+            # label has this very node in its title: injecting a copy of it, which would be
+            # visited and given the title again, would never end.
+            cloned_title_nodes: MutableSequence[n.Node] = without_ref_roles(
+                [deepcopy(node) for node in result.title],
+                (node.domain, node.name, node.target),
             )
             for title_node in cloned_title_nodes:
                 deep_copy_position(node, title_node)
